@@ -1,6 +1,7 @@
 package srvworld
 
 import (
+	"strings"
 	"fmt"
 	"testing"
 
@@ -230,7 +231,7 @@ func relationalC04(t *testing.T, r *vkit.Run, sc *Script, res caseResult) (strin
 		if st.Opt != "" || st.TxFrom > 0 {
 			return "", "" // reservation tokens and borrowed transaction ids are shared harness state
 		}
-		if st.Rel == "tie" || st.Stall > 0 {
+		if st.Rel == "tie" || st.Stall > 0 || strings.HasSuffix(st.Rel, "~") || strings.HasSuffix(st.Rel, "^") {
 			return "", "" // time that passes inside another client's step cannot be kept in the projection
 		}
 	}
